@@ -42,8 +42,12 @@ macro_rules! sm_proof {
         #[kani::unwind($unwind)]
         #[kani::stub(std::time::Instant::now, crate::sm::now_stub)]
         #[kani::stub(fixedbitset::FixedBitSet::with_capacity, crate::sm::bitset_with_capacity_stub)]
+        #[kani::stub(std::collections::VecDeque::grow, crate::util::capstub::vecdeque_never_grows)]
+        #[kani::stub(std::collections::VecDeque::with_capacity, crate::util::capstub::vecdeque_with_capacity)]
+        #[kani::stub(std::vec::Vec::reserve, crate::util::capstub::vec_reserve_no_growth)]
         pub fn $name() $body
     };
 }
 
 pub mod v4;
+pub mod v5;
